@@ -246,6 +246,9 @@ func TestVerifC10(t *testing.T) {
 		}
 		fmt.Fprintln(w, s)
 		count[part]++
+		if fs := strings.Fields(s); len(fs) > 5 {
+			count["outcome-reassemblable-"+fs[4]]++
+		}
 	}
 	specs := vfFixedSpecs()
 
